@@ -29,7 +29,8 @@ def gen_script(rng, max_gates=24, max_in=6, max_ff=3, p_glitchy=0.2, style=None,
     style = style or rng.choice(['v', 'v', 'b'])
     n_in = rng.randint(1, max_in)
     n_ff = rng.choice([0, 0, 0, 1, 2, max_ff]) if max_ff > 0 else 0
-    n_g = rng.randint(1, max_gates)
+    n_g = rng.randint(1, max_gates) if rng.random() > 0.02 else 0      # rarely: no gate at all (ports wired together)
+    if n_g == 0: style = 'v'     # (bench-style ports are the signals themselves: without a gate there would be no line at all)
     n_fl = rng.choice([0, 0, 0, 0, 1, 2]) if allow_floating else 0
     ffs = []
     for _ in range(n_ff):
@@ -76,7 +77,7 @@ def gen_script(rng, max_gates=24, max_in=6, max_ff=3, p_glitchy=0.2, style=None,
     keep_dangling = rng.randint(1, 3) if want_dangling else 0
     for s in cand[keep_dangling:]: outs.append(s)
     for _ in range(rng.randint(0, 2)): outs.append(rng.randrange(n_sig))
-    if not outs: outs.append(n_sig - 1)
+    if not outs: outs.append(max(0, n_sig - 1))
     rng.shuffle(outs)
     fmode = [rng.choice([0, 0, 1, 1, 2, 3]) for _ in range(rng.randint(1, 8))]
     return {'style': style, 'n_in': n_in, 'floating': n_fl, 'ffs': ffs, 'gates': gates, 'outs': outs, 'fmode': fmode,
